@@ -9,28 +9,30 @@ import (
 )
 
 type State struct {
-	ex      *Exec
-	lines   []string          // declarations / definitions / assumptions of this path, in order
-	heap    map[string]string // heap array -> current SMT name
-	entry   map[string]string // heap at function entry (for old())
-	fresh   []string          // refs allocated on this path
-	trace   []string          // block trace (for reports)
-	fr      *Frame
-	panicV  *Val // non-nil while a panic is propagating
-	recovered bool
-	enter     bool // a closure frame was pushed: continue at its entry block
-	havocEpoch int
-	panicSite string
+	ex           *Exec
+	lines        []string          // declarations / definitions / assumptions of this path, in order
+	heap         map[string]string // heap array -> current SMT name
+	entry        map[string]string // heap at function entry (for old())
+	fresh        []string          // refs allocated on this path
+	trace        []string          // block trace (for reports)
+	fr           *Frame
+	panicV       *Val // non-nil while a panic is propagating
+	recovered    bool
+	enter        bool // a closure frame was pushed: continue at its entry block
+	havocEpoch   int
+	panicSite    string
 	pendingPanic *Val
-	measures  map[string]string
+	measures     map[string]string
 	noLoadAssume bool
-	callResult   bool // values being typed come from a call (may be freshly allocated by the callee)
-	loopHeap  map[string]string // heap versions when the innermost cut loop was entered
-	loopFresh []string          // objects allocated on this path before that loop was entered
-	visited map[int]int
-	notes   []string
+	callResult   bool                 // values being typed come from a call (may be freshly allocated by the callee)
+	loopHeap     map[string]string    // heap versions when the innermost cut loop was entered
+	loopFresh    []string             // objects allocated on this path before that loop was entered
+	iters        map[string]*iterInfo // map iterators by SSA value name
+	callRets     map[string]Val       // results of the last call to each contracted callee (copy on write)
+	lastIter     string
+	visited      map[int]int
+	notes        []string
 }
-
 
 func (st *State) clone() *State {
 	n := *st
@@ -47,6 +49,12 @@ func (st *State) clone() *State {
 		n.visited[k] = v
 	}
 	n.notes = append([]string(nil), st.notes...)
+	if st.iters != nil {
+		n.iters = map[string]*iterInfo{}
+		for k, v := range st.iters {
+			n.iters[k] = v
+		}
+	}
 	return &n
 }
 
@@ -112,9 +120,19 @@ func (st *State) freshRef(prefix string) string {
 	return r
 }
 
+// iterInfo models a `range` over a map: the entries present when the range statement was reached are
+// visited exactly once each, in an unspecified order (ghost visited set in heap variable Heap).
+type iterInfo struct {
+	Heap   string // ghost heap variable: (Array K Bool)
+	Pres   string // snapshot: (Array K Bool)
+	Vals   string // snapshot: (Array K V)
+	KS, VS string
+	KT, VT types.Type
+}
+
 type unsupportedErr struct{ msg string }
 
-func (u unsupportedErr) Error() string { return u.msg }
+func (u unsupportedErr) Error() string      { return u.msg }
 func unsupported(msg string) unsupportedErr { return unsupportedErr{msg} }
 
 // ---------------------------------------------------------------------------
